@@ -50,6 +50,10 @@ fn main() {
     };
     let t0 = Instant::now();
     let mut jobs = (def.jobs)(tier, seed);
+    // a binary can only replay natively in the arithmetic profile it was compiled with:
+    // `release` cargo profile here = dev semantics (overflow checks on), `relnative` = wrapping.
+    let native_dev = cfg!(debug_assertions);
+    jobs.retain(|j| (j.cfg.profile == symk::explore::Profile::Dev) == native_dev);
     if let Some(f) = arg(&args, "--jobs-filter") {
         jobs.retain(|j| j.name.contains(&f));
     }
@@ -87,6 +91,8 @@ fn main() {
     if std::env::var("SYMK_SCRIPTS").is_ok() {
         // (scripts for the cross-solver check are requested per path by the driver)
     }
+    let share: f64 = arg(&args, "--budget-share").and_then(|s| s.parse().ok()).unwrap_or(1.0);
+    let budget = budget.mul_f64(share);
     let res = run_jobs(jobs, threads, Some(t0 + budget));
     let bounds = match tier {
         Tier::Quick => def.bounds_quick,
@@ -99,10 +105,11 @@ fn main() {
     let _ = std::fs::create_dir_all("replays");
     for (k, (job, v)) in sum.violations.iter().enumerate().take(8) {
         if let Verdict::Violation { what, model, inputs, native } = v {
-            let path = format!("replays/{}-{}-{}.json", id, seed, k);
+            let path = format!("replays/{}{}-{}-{}.json", id, if cfg!(debug_assertions) { "" } else { "rel" }, seed, k);
             let body = J::obj(vec![
                 ("property", J::s(&id)),
                 ("engine", J::s("S")),
+                ("native_profile", J::s(if cfg!(debug_assertions) { "dev" } else { "release (wrapping)" })),
                 ("tier", J::s(if tier == Tier::Quick { "quick" } else { "thorough" })),
                 ("job", J::s(job)),
                 ("what", J::s(what)),
@@ -123,6 +130,7 @@ fn main() {
     let out = J::obj(vec![
         ("property_id", J::s(&id)),
         ("engine", J::s("S")),
+        ("native_profile", J::s(if cfg!(debug_assertions) { "dev (overflow checks, debug assertions)" } else { "release (wrapping arithmetic)" })),
         ("tier", J::s(if tier == Tier::Quick { "quick" } else { "thorough" })),
         ("seed", J::I(seed as i64)),
         ("coverage", sum.json.clone()),
